@@ -238,7 +238,7 @@ func ruleFillGuards(w *World, r *Report, pfx string) {
 	if fn := w.Func("mpb.(*bFiller).Fill"); fn != nil {
 		bad := ""
 		sawNeg := false
-		n, over := w.enumPaths(fn, pathOpts{MaxPaths: 50000}, func(p *Path) {
+		n, over := w.enumPaths(fn, pathOpts{MaxPaths: 200000, InlineDepth: 2, Inline: w.helperInline(fn)}, func(p *Path) {
 			if bad != "" || p.Exit != "return" {
 				return
 			}
@@ -278,7 +278,7 @@ func ruleFillGuards(w *World, r *Report, pfx string) {
 	if fn := w.Func("mpb.(*sFiller).Fill"); fn != nil {
 		bad := ""
 		saw := false
-		w.enumPaths(fn, pathOpts{}, func(p *Path) {
+		w.enumPaths(fn, pathOpts{InlineDepth: 2, Inline: w.helperInline(fn)}, func(p *Path) {
 			if p.Exit != "return" {
 				return
 			}
@@ -494,14 +494,14 @@ func ruleNoIntegerProduct(w *World, r *Report, pfx string) {
 	if fn := w.Func("internal.PercentageRound"); fn != nil {
 		bad := ""
 		nConv := 0
-		w.enumPaths(fn, pathOpts{}, func(p *Path) {
+		w.enumPaths(fn, pathOpts{InlineDepth: 2, Inline: w.helperInline(fn, w.Func("internal.Percentage"))}, func(p *Path) {
 			for _, ev := range p.Events {
 				cv, ok := ev.In.(*ssa.Convert)
 				if !ok || !isUnsigned(cv) {
 					continue
 				}
-				prm, ok := cv.X.(*ssa.Parameter)
-				if !ok || isUnsigned(prm) {
+				prm, ok := p.stripR(p.val(ev, cv.X)).V.(*ssa.Parameter)
+				if !ok || isUnsigned(prm) || prm.Parent() != fn {
 					continue
 				}
 				nConv++
@@ -620,23 +620,36 @@ func ruleMonotone(w *World, r *Report, pfx string) {
 	// the rounding wrapper: Round(Percentage(uint(total), uint(current), width)) with the arguments in order
 	if pr := w.Func("internal.PercentageRound"); pr != nil {
 		ok := false
-		for _, b := range pr.Blocks {
-			ret, isRet := b.Instrs[len(b.Instrs)-1].(*ssa.Return)
-			if !isRet || len(ret.Results) != 1 {
-				continue
+		okAll := true
+		w.enumPaths(pr, pathOpts{InlineDepth: 2, Inline: w.helperInline(pr, fn)}, func(p *Path) {
+			if p.Exit != "return" || len(p.Ret) != 1 {
+				return
 			}
-			c, isCall := ret.Results[0].(*ssa.Call)
+			rv := p.R(p.Ret[0])
+			if k, isK := rv.V.(*ssa.Const); isK && k.Value != nil {
+				return // the guard's constant answer (judged by A-OVERFLOWg / the zero piece)
+			}
+			c, isCall := rv.V.(*ssa.Call)
 			if !isCall || c.Call.StaticCallee() == nil || c.Call.StaticCallee().String() != "math.Round" {
-				continue
+				okAll = false
+				return
 			}
-			inner, isCall := c.Call.Args[0].(*ssa.Call)
+			in := p.R(Val{c.Call.Args[0], rv.F, rv.E})
+			inner, isCall := in.V.(*ssa.Call)
 			if !isCall || inner.Call.StaticCallee() != fn || len(inner.Call.Args) != 3 {
-				continue
+				okAll = false
+				return
 			}
-			if stripConv(inner.Call.Args[0]) == ssa.Value(pr.Params[0]) && stripConv(inner.Call.Args[1]) == ssa.Value(pr.Params[1]) && inner.Call.Args[2] == ssa.Value(pr.Params[2]) {
+			a0 := p.stripR(Val{inner.Call.Args[0], in.F, in.E}).V
+			a1 := p.stripR(Val{inner.Call.Args[1], in.F, in.E}).V
+			a2 := p.stripR(Val{inner.Call.Args[2], in.F, in.E}).V
+			if a0 == ssa.Value(pr.Params[0]) && a1 == ssa.Value(pr.Params[1]) && a2 == ssa.Value(pr.Params[2]) {
 				ok = true
+			} else {
+				okAll = false
 			}
-		}
+		})
+		ok = ok && okAll
 		r.Check(ok, rule, "internal.PercentageRound", w.pos(pr.Pos()), "math.Round(Percentage(total, current, width))", "the rounding wrapper does not round the helper's result for (total, current, width) in that order (nearest-cell rounding lost or arguments swapped)")
 	}
 }
